@@ -26,7 +26,8 @@ MANIFEST = dict(
          "equivalence on valid keys; key_eq k1 k2 implies equal Hasher write sequences (for every inner hasher; nested dict hash is "
          "insertion-order independent); for every history of get/!?/in/len/set/op=/remove/|./-./insert/||/||+/&&/--/== and for "
          "unique/set/count_distinct/frequencies/group_all/memoize the hash-bucket model equals the finite map on ==-classes; equal keys "
-         "address the same entry, unequal keys never collide (for any hash function). The model is tied to /repo on every run by "
+         "address the same entry, unequal keys never collide (for any hash function); Eq as written (hashed nested lookup) equals key_eq; "
+         "the literal bucket structure (buckets labelled by write sequences) is the slot model. The model is tied to /repo on every run by "
          "comparing the real Hasher write sequence of every pool key token for token with the model, == on all pairs, and operation "
          "histories, with an independent Python oracle (Fraction/frozenset exact values).",
     note="Trusted: Coq kernel; hand-written models Dict/KeyEq.v, KeyHash.v, DictMap.v (tie to the code is the correspondence run: "
@@ -36,6 +37,15 @@ MANIFEST = dict(
          "Python oracle. HashMap iteration order is not modelled (contents are compared sorted). keys/values/items, dict(), set(), "
          "literal construction are compared through contents; the closure run by memoize/group_all is fixed to the identity.",
     design="6-C09")
+
+
+MAX_REPORTS = 12
+
+
+def report(ctx, kind, rep, found):
+    """at most MAX_REPORTS replay files per run (the first ones are the simplest: pool order is base keys first)"""
+    if len(ctx.violations) < MAX_REPORTS:
+        ctx.violation(kind, rep, found=found)
 
 
 # ----------------------------------------------------------------------------- key pool (Noulith sources)
@@ -294,13 +304,13 @@ def hash_tie(ctx, runner, pool_src):
     res = common.run_harness(common.harness_bin("c09"), [{"id": 0, "keys": pool_src, "eq": True}], timeout=120.0, workers=1)[0]
     pool = []
     if "keys" not in res:
-        ctx.violation("property", {"what": "the key harness did not answer (panic/hang while building or hashing pool keys)", "result": res,
-                                   "keys": pool_src}, found=True)
+        report(ctx, "property", {"what": "the key harness did not answer (panic/hang while building or hashing pool keys)", "result": res,
+                                   "keys": pool_src}, True)
         return pool
     for src, r in zip(pool_src, res["keys"]):
         if "canon" not in r:
             # every pool source is a valid key: failing to evaluate/hash it is a failing input
-            ctx.violation("property", {"what": "a valid key could not be built or hashed", "key": src, "result": r}, found=True)
+            report(ctx, "property", {"what": "a valid key could not be built or hashed", "key": src, "result": r}, True)
             continue
         pool.append({"src": src, "canon": r["canon"], "key": parse(r["canon"]), "tokens": r["tokens"], "idx": len(pool), "row": None})
     rows = [row for row, r in zip(res["eq"], res["keys"]) if "canon" in r]
@@ -328,14 +338,14 @@ def hash_tie(ctx, runner, pool_src):
                    "program": "{%s: 1}[%s]" % (a["src"], b["src"])}
             if impl_eq not in "01" or (impl_eq == "1") != oracle_eq:
                 rep["what"] = "ObjKey == differs from exact-value equality of the two keys (or panicked)"
-                ctx.violation("property", rep, found=True)
+                report(ctx, "property", rep, True)
             elif oracle_eq and a["tokens"] != b["tokens"]:
                 rep["what"] = "two keys that are == make different Hasher write sequences: they address different HashMap entries"
-                ctx.violation("property", rep, found=True)
+                report(ctx, "property", rep, True)
             elif me is not None and me[i * n + j] != impl_eq:
                 rep["what"] = "key_eq of the Coq model differs from ObjKey == (the oracle accepts the implementation)"
                 rep["coq_model"] = me[i * n + j]
-                ctx.violation("correspondence", rep, found=False)
+                report(ctx, "correspondence", rep, False)
     for e, m in zip(pool, mh):
         if m is None:
             continue
@@ -344,10 +354,10 @@ def hash_tie(ctx, runner, pool_src):
         if e["model_tokens"] != e["tokens"]:
             st["hash_mismatch_model"] += 1
             if not any(v[0] == "property" for v in ctx.violations):
-                ctx.violation("correspondence", {"what": "the Hasher write sequence of this key differs from key_hash of the Coq model; the "
+                report(ctx, "correspondence", {"what": "the Hasher write sequence of this key differs from key_hash of the Coq model; the "
                                                          "implementation's hash is coherent with == on the whole pool, so no failing input was found",
                                                  "key": e["src"], "value": e["canon"], "implementation_tokens": e["tokens"],
-                                                 "coq_model_tokens": e["model_tokens"]}, found=False)
+                                                 "coq_model_tokens": e["model_tokens"]}, False)
     return pool, st
 
 
@@ -373,10 +383,10 @@ def lookups(ctx, pool, npairs):
         got = r.get("val") if r.get("status") == "ok" else r.get("status")
         if got != e:
             bad += 1
-            ctx.violation("property", {"what": "equal keys must address the same entry and unequal keys must not collide "
+            report(ctx, "property", {"what": "equal keys must address the same entry and unequal keys must not collide "
                                                "([d !? b, b in d, len(d |. b), d == {b: 7}] for d = {a: 7})",
                                        "program": p, "a_value": pool[i]["canon"], "b_value": pool[j]["canon"], "oracle_equal": same,
-                                       "expected": e, "implementation": got, "msg": r.get("msg")}, found=True)
+                                       "expected": e, "implementation": got, "msg": r.get("msg")}, True)
     return {"lookup_programs": len(progs), "lookup_equal_pairs": len(eqp), "lookup_bad": bad}
 
 
@@ -577,13 +587,18 @@ def gen_history(ctx, pool, hist_id):
         work += rng.sample(g, min(len(g), rng.randint(2, 3)))
     work += [rng.randrange(n) for _ in range(rng.randint(1, 3))]
     default = rng.choice([("none",), ("none",), ("some", 0), ("some", None)])
+    # a third of the histories use only the primitive operations and no default, so that the literal bucket
+    # structure of the model (bmap) can follow them to the end
+    prim = rng.random() < 0.33
+    if prim:
+        default = ("none",)
     orc = Oracle(default)
     ops, exp = [], []
     length = rng.randint(10, 30)
     tries = 0
     while len(ops) < length and tries < 200:
         tries += 1
-        t = rng.choices(OPS, WEIGHTS)[0]
+        t = rng.choices(OPS[:10], WEIGHTS[:10])[0] if prim else rng.choices(OPS, WEIGHTS)[0]
         k = rng.choice(work)
         v = rng.randint(-5, 20)
         if t in ("get", "sget", "in", "rm", "addk"):
@@ -643,14 +658,14 @@ def run_histories(ctx, runner, pool, nh):
         rr = r.get("results")
         msteps = [x.split(" ") for x in m.split(" ; ")] if m else None
         if m is not None and (m.startswith("badcase") or m.startswith("exn") or m.startswith("runner-died")):
-            ctx.violation("correspondence", {"what": "the model runner failed on this history", "model_line": mlines[h["id"]], "answer": m}, found=False)
+            report(ctx, "correspondence", {"what": "the model runner failed on this history", "model_line": mlines[h["id"]], "answer": m}, False)
             msteps = None
         if rr is None or len(rr) < len(prog):
-            ctx.violation("property", {"what": "the implementation panicked, hung or aborted while running a dictionary history",
-                                       "statements": prog, "result": r if rr is None else rr[-1]}, found=True)
+            report(ctx, "property", {"what": "the implementation panicked, hung or aborted while running a dictionary history",
+                                       "statements": prog, "result": r if rr is None else rr[-1]}, True)
             continue
         if rr[0].get("status") != "ok":
-            ctx.violation("property", {"what": "creating the dictionary failed", "statements": prog[:1], "result": rr[0]}, found=True)
+            report(ctx, "property", {"what": "creating the dictionary failed", "statements": prog[:1], "result": rr[0]}, True)
             continue
         seen_keys = []
         for s, (op, (oobs, ocont)) in enumerate(zip(h["ops"], h["oracle"])):
@@ -679,7 +694,7 @@ def run_histories(ctx, runner, pool, nh):
                 rep["coq_model"] = msteps[s]
             if (iobs, icont) != (oobs, ocont):
                 rep["what"] = "after this operation the dictionary differs from the finite map keyed by exact-value equality"
-                ctx.violation("property", rep, found=True)
+                report(ctx, "property", rep, True)
                 break
             if msteps is not None:
                 mobs = " ".join(msteps[s][:-2])
@@ -689,7 +704,7 @@ def run_histories(ctx, runner, pool, nh):
                 if (mobs, mcont) != (iobs, icont) or (bcont != "-" and bcont != icont):
                     rep["what"] = ("correspondence Dict/DictMap.v <-> implementation no longer checks on this history; the Python oracle "
                                    "accepts the implementation's answer, so no input violating the property was found")
-                    ctx.violation("correspondence", rep, found=False)
+                    report(ctx, "correspondence", rep, False)
                     break
         if len(samples) < 4:
             samples.append({"statements": prog[:9], "implementation": [x.get("val", x.get("status")) for x in rr[:9]],
@@ -809,24 +824,24 @@ def run_lib(ctx, runner, pool, ncases):
         if impl != orc:
             bad += 1
             rep["what"] = "the result differs from the one computed over ==-classes (first representative kept, classes never split or merged)"
-            ctx.violation("property", rep, found=True)
+            report(ctx, "property", rep, True)
         elif mod is not None and mod != impl:
             bad += 1
             rep["what"] = "correspondence Dict/DictMap.v library functions <-> implementation no longer checks; the oracle accepts the implementation"
-            ctx.violation("correspondence", rep, found=False)
+            report(ctx, "correspondence", rep, False)
     return {"lib_cases": len(cases), "lib_bad": bad}, cases
 
 
 # ----------------------------------------------------------------------------- driver entry points
 def run(ctx):
     runner = common.standard_prelude(ctx)
-    pool_src = build_pool(ctx, ctx.n(40, 150))
+    pool_src = build_pool(ctx, ctx.n(40, 100))
     out = hash_tie(ctx, runner, pool_src)
     if not out:
         return common.conclude(ctx)
     pool, st = out
     st.update(lookups(ctx, pool, ctx.n(400, 4000)))
-    hstats, nontrivial, samples = run_histories(ctx, runner, pool, ctx.n(500, 15000))
+    hstats, nontrivial, samples = run_histories(ctx, runner, pool, ctx.n(500, 6000))
     lstats, lcases = run_lib(ctx, runner, pool, ctx.n(300, 3000))
     st.update(lstats)
     evaluations = st["hash_compared"] + st["eq_pairs"] + st["lookup_programs"] + hstats["steps"] + st["lib_cases"]
